@@ -23,8 +23,10 @@ def adv_line(rng, forbid=()):
         return s
 
 
-def adv_nodes(rng, forbid=(), max_lines=4, empty_lines=True):
-    """(abstract nodes, expected lines)"""
+def adv_nodes(rng, forbid=(), max_lines=4, empty_lines=True, styles=False):
+    """(abstract nodes, expected lines); with `styles`, a balanced pair of style nodes is sometimes put around a stretch
+    of the nodes -- often one that renders as nothing in the target format (no italics/bold/underline), so that a break
+    directly follows a node that is neither text nor break"""
     nl = rng.randint(1, max_lines)
     lines = [adv_line(rng, forbid) for _ in range(nl)]
     nodes = []
@@ -34,12 +36,21 @@ def adv_nodes(rng, forbid=(), max_lines=4, empty_lines=True):
         if i:
             nodes.append(("B",))
             if empty_lines and rng.random() < 0.3:
+                if rng.random() < 0.35 and not forbid:
+                    # an "empty" line spelled as a text node without visible characters (what the WebVTT reader returns
+                    # for a line holding only &nbsp;, what wrapped markup leaves behind)
+                    nodes.append(("T", rng.choice(["\u00a0", " ", "", "\u3000", "\u00a0 \u00a0"])))
                 nodes.append(("B",))
                 if rng.random() < 0.3:
                     nodes.append(("B",))
         nodes.append(("T", ln))
     if empty_lines and rng.random() < 0.1:
         nodes.append(("B",))
+    if styles and rng.random() < 0.45:
+        fl = rng.choice([(False, False, False), (False, False, False), (True, False, False), (False, True, True), (True, True, False)])
+        p = rng.randint(0, len(nodes))
+        q = rng.randint(p, len(nodes))
+        nodes = nodes[:p] + [("S", True) + fl] + nodes[p:q] + [("S", False) + fl] + nodes[q:]
     return nodes, lines
 
 
@@ -58,7 +69,9 @@ def norm_lines(lines):
 def parse_srt(doc):
     """SRT block grammar: blocks separated by blank lines; index line, timing line, text lines"""
     cues = []
-    for block in re.split(r"\n[ \t]*\n", doc.strip("\n") + "\n"):
+    # a line without any visible character counts as blank (what parsers that trim lines do): a writer is only safe if
+    # it leaves no such line inside a cue
+    for block in re.split(r"\n[^\S\n]*\n", doc.strip("\n") + "\n"):
         ls = block.split("\n")
         ls = [l for l in ls]
         while ls and ls[-1] == "":
